@@ -39,7 +39,7 @@ ObsSt(e) == [ conn  |-> SetOf(e.st.conn),
               nid   |-> e.st.nid,
               \* not observable through the API: carried by the monitor (see Step)
               unans |-> st.unans, cbs |-> st.cbs, rcbs |-> st.rcbs,
-              nsub  |-> 0, nbind |-> 0 ]
+              nsub  |-> 0, nbind |-> 0, nfire |-> 0 ]
 
 NormDg(d) == [k |-> d.k, ok |-> d.ok, ref |-> d.ref, src |-> d.src, dst |-> d.dst,
               fn |-> d.fn, val |-> d.val, ents |-> SetOf(d.ents), ucs |-> SetOf(d.ucs)]
